@@ -8,3 +8,8 @@ CHECKS["C07"] = dict(
     text="TLC enumerates the complete option lattice of the simulation entry point (3000 configurations x 5 model kinds, incl. contradictory arguments) on a pc-level transcription of the dispatch, checks totality/termination/shape invariants, and every configuration is replayed against the real py_simulate_model with the outcome classified (result / explicit rejection by the entry point / internal failure / crash) and the result's rows, time axis, columns, volume trace, divided flag and rule-applied first row compared with the spec.",
     ref="DESIGN.md 5 C07", technique="TLA+ spec (Dispatch.tla) exhaustively enumerated with TLC; every terminal state replayed into py_simulate_model",
     note="An explicit rejection is a ValueError/TypeError/NotImplementedError whose innermost frame is py_simulate_model; property level accepts a correct result or an explicit rejection for any configuration (design-level differences are reported as drift).")
+
+CHECKS["C01"] = dict(
+    text="TLC enumerates law x reactant multiset (orders 0..4, repeats) x rational state grid x parameters (incl. fractional Hill exponents on exact perfect powers) x volumes on the closed forms of RateLaws.tla, checks the consistency identities (dimension, unit volume, stochastic<=deterministic, falling-factorial zeros, Hill complement) at every point, and every point is evaluated on the real code in four modes through a bare propensity object, the plain and the safe interface.",
+    ref="DESIGN.md 5 C01", technique="TLA+ spec of the closed forms over exact rationals, exhaustively enumerated by TLC; each spec state replayed as an evaluation of the implementation",
+    note="Exactly representable points only (rtol 1e-9); the safe path is compared only at states that supply the net-consumed reactants; general propensities are covered by C02.")
